@@ -60,6 +60,13 @@ def J(test, checks=None, shards=1, race=False, env=None, procs=None, timeout=900
 
 
 PROPS = {
+    "C15": dict(
+        level="exploration",
+        rule="rapid-generated writer scripts (10-160 mutating calls: whole-generation syncs, refilters toggling between accept-all and a label filter, single-object updates) over 1-6 objects with 1-12 concurrent reader goroutines doing List/Get; every read must equal the scripted cache content at some call index between the writer's finished-counter read before and started-counter read after the call, indices per reader never decrease, returned slices are scribbled over; built with -race (a race report fails the check). Non-trivial = >= 4 readers, >= 50 writer calls and >= 1 refilter; distinct = (objects, readers, script).",
+        assumptions=["schedules are whatever the Go scheduler produces under -race with reader-side yields and GOMAXPROCS in {2,4,8,16}; not enumerated", "cache driven through the add-only hook NewVerifCache"],
+        quick=[J("TestC15_Snapshots", checks=700, shards=4, race=True, procs=[2, 4, 8, 16])],
+        thorough=[J("TestC15_Snapshots", checks=5000, shards=16, race=True, procs=[1, 2, 4, 8, 16], timeout=1800)],
+    ),
     "C01": dict(
         level="exploration",
         rule="rapid state machine over the real cache actor (hook NewVerifCache): initial filter from a 12-filter family x sequences of sync/update/refilter over 4 keys, versions -2..40 plus malformed strings, 3 label values, lists with duplicates and malformed entries; after every operation List/Get are compared with the reference model. Plus the bounded-exhaustive universe of the property (2 keys x versions 0..5 x 2 labels x 4 filters: every single next operation from every reachable state; quick samples every 4th state). Non-trivial = the sequence contains an operation with an incoming version <= the cached one, or a filter rejecting a cached key, or a duplicate/malformed entry (enumeration: a non-empty state); distinct = hash of the rendered operation sequence / state.",
@@ -286,6 +293,8 @@ def classify(r):
         if "VERIF-INCONCLUSIVE" in text:
             return "infra", first_fail_line(text), ff
         return "violation", first_fail_line(text), ff
+    if "WARNING: DATA RACE" in text:
+        return "violation", "data race reported by the race detector: " + race_summary(text), None
     if "panic:" in text or "fatal error:" in text:
         # a Go panic that killed the worker: a violation when library frames are on the stack
         if "github.com/boz/kcache" in text or "github.com/boz/go-lifecycle" in text:
@@ -306,6 +315,15 @@ def first_fail_line(text):
         if "[rapid] failed" in line or "[rapid] panic" in line or "[rapid] flaky" in line:
             return line.strip()[:400]
     return "test failed"
+
+
+def race_summary(text):
+    lines = text.splitlines()
+    for i, line in enumerate(lines):
+        if "WARNING: DATA RACE" in line:
+            frames = [l.strip() for l in lines[i + 1:i + 12] if l.strip().startswith("github.com/boz") or "by goroutine" in l]
+            return " | ".join(frames[:4])[:400]
+    return "?"
 
 
 def first_panic_line(text):
